@@ -150,8 +150,6 @@ class Spec(core.PropSpec):
                             try:
                                 y = T[side](C.clone(C.make_input(dom, k, var)), ctx)
                             except Exception as e:
-                                if var == 0:
-                                    raise
                                 errs[side] = type(e).__name__
                                 y = None
                             after = save_amb()
@@ -161,11 +159,12 @@ class Spec(core.PropSpec):
                                                        ("torch", before[2].tolist(), after[2].tolist())) if a != b]
                             vio.append(("C07:global-rng-consumed", f"call {j} on replica {side} advanced the global {which} RNG"))
                     if errs:
-                        # a non-standard input (size / channels / mode) that the transform does not accept is outside the
-                        # property - as long as both replicas refuse it alike
+                        # an input / composition the transform does not support is outside this property - as long as both replicas,
+                        # given equal seeds and inputs, refuse alike (raising is then a function of seed and input as well)
                         if errs.get("A") != errs.get("B"):
                             vio.append(("C07:replicas-diverge", f"joint call {j} on input variant {var}: one replica raised {errs}, the other did not"))
-                        out.count("input_variant_refused")
+                        out.count("input_variant_refused" if var else "both_replicas_raise_alike")
+                        out.ev("refused", j, sorted(errs.items()))
                         j += 1
                         continue
                     if var:
@@ -183,6 +182,23 @@ class Spec(core.PropSpec):
                         vio.append(("C07:reinjection-does-not-replay", f"call {j} after re-injecting seed {plan['seed']} differs from call {j} after the first injection"))
                     j += 1
             except Exception as e:
+                if op[0] == "pre":
+                    out.count("pre_injection_call_raised")
+                    continue
+                if op[0] in ("call",):
+                    # does a fresh, never injected instance refuse the same input in the same way?  then the failure has nothing
+                    # to do with seeding (an input / composition the transform does not support) and is outside this property
+                    try:
+                        k_ = plan["ks"][j % len(plan["ks"])] if op[0] == "call" else op[2]
+                        with SimProcess("probe", plan["ambA"] + 99).on_cpu():
+                            C.build(spec)(C.clone(C.make_input(dom, k_)), {})
+                        same = False
+                    except Exception as e2:
+                        same = type(e2) is type(e)
+                    if same:
+                        out.count("call_raises_regardless_of_injection")
+                        out.ev("refused", op[0], type(e).__name__)
+                        break
                 vio.append((f"C07:raises:{type(e).__name__}", f"op {op}: {type(e).__name__}: {e}"))
                 out.ev("raised", op[0], type(e).__name__)
                 break
